@@ -673,7 +673,7 @@ func Positions(t Tier) []*Grammar {
 		every = 6
 	}
 	var out []*Grammar
-	for style := 0; style < 3; style++ {
+	for style := 0; style < 4; style++ {
 		sel := thin(ts, every)
 		if style > 0 {
 			sel = thin(ts, every*8)
